@@ -239,6 +239,9 @@ def c03(case, trace, settled=False):
             yield ("skips_only_unplayable", hit[1], hit[2], hit[3])
         if i == 0:
             yield from _random_pass(case, trace)
+        # "skipping only unplayable tracks": giving up while a playable candidate is left
+        for hit in _gives_up_early(case, trace, i):
+            yield ("skips_only_unplayable", hit[1], hit[2], hit[3])
         if settled and k == "next" and i > 0 and not t["exc"] and not t["diverged"]:
             # without repeat next() always moves on: to a following playable entry, or it stops
             # when none is left; it never leaves the old entry playing (unless the shuffle order
